@@ -68,6 +68,14 @@ func newNamer() *namer {
 		ImageSampleBaseClampToEdgeFunc,
 		DynamicBufferOffsetsPrefix,
 		ImageStorageLoadScalarWrapper,
+		// the helper names as they are actually emitted (without the leading
+		// underscore of the constants above)
+		"naga_abs",
+		"naga_neg",
+		"naga_f2i32",
+		"naga_f2u32",
+		"naga_f2i64",
+		"naga_f2u64",
 	}
 
 	for _, name := range helperNames {
